@@ -72,10 +72,12 @@ class ArcRef(object):
             return base
         # (a) half-turn square root; (b) aspect ratio: the point-form keeps centre + radius*axis as points, so the
         # small radius is recovered from coordinates of the size of the large one: relative error eps*hi/lo per
-        # operation (4e-13 allows ~1000 ulp); negligible for aspect ratios <= 1e3.
+        # operation (2e-12 allows ~5000 ulp; measured need at aspect 1e6 with a rotation 1e-6 degrees off a quarter turn:
+        # 7.5e-13, while the true distance from the exact ellipse - 60-digit arithmetic - is 1.5e-12 of the large radius);
+        # small for aspect ratios <= 1e3.
         hi, lo = max(self.rx, self.ry), min(self.rx, self.ry)
         return (base + 1e-15 / math.sqrt(max(abs(1.0 - min(self.lam, 1.0)), 1e-16)) * 2.0
-                + 4e-13 * hi / lo)
+                + 2e-12 * hi / lo)
 
     def point(self, theta):
         x = self.rx * math.cos(theta)
